@@ -55,14 +55,14 @@ typedef unsigned long long c09_u64;
 /* number of logical blocks of tree T: 12, 256, 256^2, 256^3 */
 #define C09_SIZE(T)	((T) == 0 ? (c09_u64)C09_NDIR : (c09_u64)1 << (C09_ABITS * (T)))
 
-/* a 1 KiB block seen as 256 words is all zero (independent of check_zero_block; bounded loop, 256 iterations) */
+/* a 1 KiB block seen as 256 words is all zero (independent of check_zero_block).  A loop-free expression: it is
+ * evaluated inside contracts, where a helper with local variables would violate the (empty) frame. */
+#define C09_Z4(w, i)	((w)[(i)] == 0 && (w)[(i) + 1] == 0 && (w)[(i) + 2] == 0 && (w)[(i) + 3] == 0)
+#define C09_Z16(w, i)	(C09_Z4(w, i) && C09_Z4(w, (i) + 4) && C09_Z4(w, (i) + 8) && C09_Z4(w, (i) + 12))
+#define C09_Z64(w, i)	(C09_Z16(w, i) && C09_Z16(w, (i) + 16) && C09_Z16(w, (i) + 32) && C09_Z16(w, (i) + 48))
+#define C09_Z256(w)	(C09_Z64(w, 0) && C09_Z64(w, 64) && C09_Z64(w, 128) && C09_Z64(w, 192))
 static int c09_all_zero_1k(const void *buf)
 {
-	const unsigned int *w = (const unsigned int *)buf;
-	unsigned int i;
-	for (i = 0; i < C09_APB; i++)
-		if (w[i] != 0)
-			return 0;
-	return 1;
+	return C09_Z256((const unsigned int *)buf);
 }
 #endif
